@@ -37,6 +37,36 @@ type storeOp struct {
 	ID   int    `json:"id"`   // abstract: k-th id issued in that mailbox; > issued = never issued
 	Meta int    `json:"meta"` // metadata class; 0 = old (expired for scan), others young
 	Size int    `json:"size"` // bytes
+	// C16, deliveries through the manager only: further recipient mailboxes of the same transaction (an index equal to Mb is a
+	// second, plus-addressed recipient of the same mailbox), and which copy (1-based, 0 = none) the store refuses
+	Also   []int `json:"also"`
+	FailAt int   `json:"fail_at"`
+}
+
+// recStore lets the driver observe a multi-recipient delivery copy by copy: the manager calls the store once per copy (and,
+// when a copy is refused, once per copy to take back); each of those calls is reported as its own trace event.
+type recStore struct {
+	storage.Store
+	n      int
+	failAt int
+	added  func(mailbox, id string, err error)
+	remove func(mailbox, id string, err error)
+}
+
+func (r *recStore) AddMessage(m storage.Message) (string, error) {
+	r.n++
+	if r.n == r.failAt {
+		return "", errors.New("verif: injected store failure")
+	}
+	id, err := r.Store.AddMessage(m)
+	r.added(m.Mailbox(), id, err)
+	return id, err
+}
+
+func (r *recStore) RemoveMessage(mailbox, id string) error {
+	err := r.Store.RemoveMessage(mailbox, id)
+	r.remove(mailbox, id, err)
+	return err
 }
 
 type storeBehaviour struct {
@@ -113,6 +143,36 @@ func (r *evRec) drain(quiet time.Duration) []tr.Ev {
 		out = []tr.Ev{}
 	}
 	return out
+}
+
+// flushEvents waits until every after-event emitted so far has been handed to the recording listener: a sentinel
+// goes through each broker (per-listener FIFO puts it behind everything emitted before), then quiescence.
+func flushEvents(host *extension.Host, rec *evRec) []tr.Ev {
+	host.Events.AfterMessageStored.Emit(&event.MessageMetadata{Mailbox: "verif-sentinel", ID: "s"})
+	host.Events.AfterMessageDeleted.Emit(&event.MessageMetadata{Mailbox: "verif-sentinel", ID: "d"})
+	deadline := time.Now().Add(3 * time.Second)
+	for time.Now().Before(deadline) {
+		rec.mu.Lock()
+		n := 0
+		for _, e := range rec.evs {
+			if e["mb"] == "verif-sentinel" {
+				n++
+			}
+		}
+		rec.mu.Unlock()
+		if n >= 2 {
+			break
+		}
+		time.Sleep(200 * time.Microsecond)
+	}
+	all := rec.drain(5 * time.Millisecond)
+	evs := []tr.Ev{}
+	for _, e := range all {
+		if e["mb"] != "verif-sentinel" {
+			evs = append(evs, e)
+		}
+	}
+	return evs
 }
 
 func newStore(kind string, cap, maxkb int, dir string, host *extension.Host) (storage.Store, error) {
@@ -245,24 +305,55 @@ func runStoreBehaviourHooked(w *tr.Writer, b storeBehaviour, seed int64, scratch
 			meta := mkMeta(rng, op.Meta, name)
 			body := mkBody(rng, op.Size)
 			if b.Events {
-				// through the manager, which emits the stored event; id and metadata are read back
-				mgr := &message.StoreManager{AddrPolicy: &policy.Addressing{Config: &config.Root{MailboxNaming: config.LocalNaming, SMTP: config.SMTP{DefaultAccept: true, DefaultStore: true}}}, Store: st, ExtHost: host}
-				rcpt, rerr := mgr.AddrPolicy.NewRecipient(name + "@example.com")
-				if rerr != nil {
-					ev["r"] = "harness-error: " + rerr.Error()
-					break
+				// through the manager, which emits the stored events; the store calls the manager makes are reported one by one
+				// (one "add" event per copy stored, one "remove" per copy taken back), each with the store as it is then
+				copies := []tr.Ev{}
+				sub := 0
+				emitSub := func(e tr.Ev) {
+					e["t"], e["i"], e["sub"] = b.ID, i, sub
+					sub++
+					snapInto(e)
+					w.Emit(e)
+				}
+				rs := &recStore{Store: st, failAt: op.FailAt}
+				rs.added = func(mbn, id string, err error) {
+					e := tr.Ev{"a": "add", "mb": mbn, "r": errClass(err), "id": id}
+					if err == nil {
+						copies = append(copies, tr.Ev{"mb": mbn, "id": id})
+						if m, gerr := st.GetMessage(mbn, id); gerr == nil && m != nil {
+							pm := tr.ProjectMsg(m)
+							e["size"], e["meta"] = pm.Size, pm.Meta
+						}
+						for k, nm := range b.Names {
+							if nm == mbn {
+								issued[k] = append(issued[k], id)
+							}
+						}
+					}
+					emitSub(e)
+				}
+				rs.remove = func(mbn, id string, err error) {
+					emitSub(tr.Ev{"a": "remove", "mb": mbn, "id": id, "r": errClass(err), "why": "rollback"})
+				}
+				mgr := &message.StoreManager{AddrPolicy: &policy.Addressing{Config: &config.Root{MailboxNaming: config.LocalNaming, SMTP: config.SMTP{DefaultAccept: true, DefaultStore: true}}}, Store: rs, ExtHost: host}
+				addrs := []string{name + "@example.com"}
+				for k, a := range op.Also {
+					if a >= 0 && a < len(b.Names) {
+						addrs = append(addrs, fmt.Sprintf("%s+r%d@example.com", b.Names[a], k))
+					}
+				}
+				rcpts := []*policy.Recipient{}
+				for _, a := range addrs {
+					rcpt, rerr := mgr.AddrPolicy.NewRecipient(a)
+					if rerr != nil {
+						ev["r"] = "harness-error: " + rerr.Error()
+						break
+					}
+					rcpts = append(rcpts, rcpt)
 				}
 				content := append([]byte("Subject: "+meta.Subject+"\r\n\r\n"), body...)
-				err := mgr.Deliver(&policy.Origin{Address: *meta.From}, []*policy.Recipient{rcpt}, "Received: from verif ([127.0.0.1]) by verif\r\n", content)
-				ev["r"] = errClass(err)
-				ms, _ := st.GetMessages(name)
-				if err == nil && len(ms) > 0 {
-					pm := tr.ProjectMsg(ms[len(ms)-1])
-					ev["id"] = pm.ID
-					ev["size"] = pm.Size
-					ev["meta"] = pm.Meta
-					issued[op.Mb] = append(issued[op.Mb], pm.ID)
-				}
+				err := mgr.Deliver(&policy.Origin{Address: *meta.From}, rcpts, "Received: from verif ([127.0.0.1]) by verif\r\n", content)
+				ev["a"], ev["r"], ev["rcpts"], ev["fail_at"], ev["copies"] = "delivered", errClass(err), addrs, op.FailAt, copies
 				break
 			}
 			d := &message.Delivery{Meta: meta, Reader: bytes.NewReader(body)}
@@ -402,36 +493,7 @@ func runStoreBehaviourHooked(w *tr.Writer, b storeBehaviour, seed int64, scratch
 		w.Emit(ev)
 	}
 	if b.Events {
-		// flush: a sentinel through each broker (per-listener FIFO puts it behind everything emitted so far);
-		// wait for both, then for quiescence
-		rec.mu.Lock()
-		before := len(rec.evs)
-		rec.mu.Unlock()
-		_ = before
-		host.Events.AfterMessageStored.Emit(&event.MessageMetadata{Mailbox: "verif-sentinel", ID: "s"})
-		host.Events.AfterMessageDeleted.Emit(&event.MessageMetadata{Mailbox: "verif-sentinel", ID: "d"})
-		deadline := time.Now().Add(3 * time.Second)
-		for time.Now().Before(deadline) {
-			rec.mu.Lock()
-			n := 0
-			for _, e := range rec.evs {
-				if e["mb"] == "verif-sentinel" {
-					n++
-				}
-			}
-			rec.mu.Unlock()
-			if n >= 2 {
-				break
-			}
-			time.Sleep(200 * time.Microsecond)
-		}
-		all := rec.drain(5 * time.Millisecond)
-		evs := []tr.Ev{}
-		for _, e := range all {
-			if e["mb"] != "verif-sentinel" {
-				evs = append(evs, e)
-			}
-		}
+		evs := flushEvents(host, rec)
 		end := tr.Ev{"a": "events", "t": b.ID, "evs": evs}
 		snapInto(end)
 		w.Emit(end)
